@@ -247,7 +247,7 @@ class GpRegressor:
         if y_cov is not None:
             # if y_cov is given as a list or tuple, attempt conversion to an array
             if any([type(y_cov) is t for t in [list, tuple]]):
-                y_err = array(y_cov).squeeze()
+                y_cov = array(y_cov)
             elif type(y_cov) is not ndarray:
                 # else if it isn't already an array raise an error
                 raise TypeError(
